@@ -102,7 +102,19 @@ def rule_tokenizer(ctx, rep):
                 bad.setdefault('lowercase-form', (text, toks))
             if nan:
                 bad.setdefault('born-unflagged', (text, toks))
+    # C17: which white-space character stands somewhere never changes where the tokens are cut
+    WS = (' ', '\u00a0', '\u2009')
+    for text, (toks, err) in res.items():
+        if err or not any(c in text for c in WS[1:]):
+            continue
+        canon = ''.join(' ' if c in WS else c for c in text)
+        other = res.get(canon)
+        if other is None or other[1]:
+            continue
+        if [len(t[0]) for t in toks] != [len(t[0]) for t in other[0]]:
+            bad.setdefault('whitespace-invariant', (text, '%s, but %r -> %s' % (toks, canon, other[0])))
     msgs = {'no-panic': 'the tokenizer reaches a panic site', 'lossless': 'token texts do not concatenate to the input',
+            'whitespace-invariant': 'the tokens are cut elsewhere when a white-space character is replaced by another one',
             'non-empty': 'an empty token is produced', 'separator-purity': 'a separator token contains an alphanumeric char',
             'word-maximal': 'two word tokens follow each other (a word is cut)', 'separator-maximal': 'two separator tokens follow each other',
             'lowercase-form': 'the lowercase form is not the lowercased text', 'born-unflagged': 'a token is created already flagged not-a-number'}
